@@ -240,6 +240,7 @@ REVEALABLE = {}
 
 
 seeded_bits = z3.Function("seeded_bits", I, I, I, I)   # k-th random.getrandbits(n) after random.seed(s)
+any_item = z3.Function("any_item", Val, Val, Val)    # v[k] for a dynamically typed v
 int16 = z3.Function("int16", ISq, I)         # int(s, 16)
 int16_ok = z3.Function("int16_ok", ISq, B)   # int(s, 16) does not raise
 hexdigit = z3.Function("hexdigit", I, I)     # value of a hexadecimal digit character, -1 otherwise
